@@ -64,6 +64,11 @@ int vecStrCount(const std::vector<std::string> &v);
 int *arrNew(int n, int *len);
 int *arrLib(int *len);
 double *arrNewAlloc(int n, int *len);
+int *arrNewPat(int n, int *len);
+int arrSum(const int *arr, int n);
+void charGrow(char *s);
+Item &refItem();
+std::vector<double> vecRetD(int n);
 
 
 // extra declarations: not called by the drivers; variants wrap a random subset of them to shift
